@@ -8,6 +8,7 @@ import (
 	"errors"
 	"fmt"
 	"math"
+	"sort"
 	"time"
 
 	"github.com/fogfish/golem/pipe/v2"
@@ -376,11 +377,13 @@ func modelOf0(p *driver.Plan) Model {
 				m.Errs = []int{ff}
 			}
 		} else if p.Mode == "try" {
-			for i := 0; i < 1<<12; i++ {
-				if fails[i] {
+			// every failing index, ascending (no horizon: a plan may fail at any index)
+			for i := range fails {
+				if i >= 0 {
 					m.Errs = append(m.Errs, i)
 				}
 			}
+			sort.Ints(m.Errs)
 		}
 		m.Inf = func(k int) int {
 			// k-th non-failing index
